@@ -63,7 +63,7 @@ func main() {
 	}
 	cfg := &packages.Config{
 		Mode: packages.NeedName | packages.NeedFiles | packages.NeedCompiledGoFiles |
-			packages.NeedSyntax | packages.NeedTypes | packages.NeedTypesInfo | packages.NeedImports,
+			packages.NeedSyntax | packages.NeedTypes | packages.NeedTypesInfo | packages.NeedImports | packages.NeedModule,
 		Dir: mustAbs("."),
 		Env: goEnv(),
 	}
@@ -103,6 +103,7 @@ func main() {
 		for i, f := range p.Syntax {
 			src := p.CompiledGoFiles[i]
 			rw := &rewriter{pkg: p, info: p.TypesInfo, fset: p.Fset, file: f, path: src}
+			rw.sharedLoopVar = p.Module != nil && loopVarShared(p.Module.GoVersion)
 			for suf := range fineFiles {
 				if strings.HasSuffix(src, "/"+suf) {
 					rw.fine = true
@@ -167,8 +168,21 @@ type commInfo struct {
 	comment string
 }
 
+// loopVarShared: a module whose go.mod states a version before 1.22 has ONE variable per
+// `for x := range` loop, shared by every iteration and every closure made in the body
+// (lugu/qiloop says go 1.13). A rewritten loop has to keep that.
+func loopVarShared(goVersion string) bool {
+	var major, minor int
+	if n, _ := fmt.Sscanf(goVersion, "%d.%d", &major, &minor); n < 2 {
+		return false
+	}
+	return major == 1 && minor < 22
+}
+
 type rewriter struct {
 	realImports map[string]string // alias -> real package path kept next to its shim
+	// sharedLoopVar: see loopVarShared
+	sharedLoopVar bool
 
 	pkg  *packages.Package
 	info *types.Info
@@ -777,6 +791,15 @@ func (rw *rewriter) rewriteRangeChan(n *ast.RangeStmt) ast.Stmt {
 	key := n.Key
 	if key == nil {
 		key = ast.NewIdent("_")
+	}
+	if id, isID := key.(*ast.Ident); isID && id.Name != "_" && n.Tok == token.DEFINE && rw.sharedLoopVar && !rw.labeled[n] {
+		// `for x := range ch` in a module before go 1.22: x is one variable for the
+		// whole loop (a goroutine started in the body and running later sees the NEXT
+		// element). x, ok := ch.Recv2(); for ; ok; x, ok = ch.Recv2() { body }
+		first := &ast.AssignStmt{Lhs: []ast.Expr{key, ast.NewIdent(ok)}, Tok: token.DEFINE, Rhs: []ast.Expr{recv}}
+		next := &ast.AssignStmt{Lhs: []ast.Expr{ast.NewIdent(id.Name), ast.NewIdent(ok)}, Tok: token.ASSIGN, Rhs: []ast.Expr{method(chExpr, "Recv2")}}
+		loop := &ast.ForStmt{Cond: ast.NewIdent(ok), Post: next, Body: &ast.BlockStmt{List: []ast.Stmt{n.Body}}}
+		return &ast.BlockStmt{List: append(append(pre, first), loop)}
 	}
 	if n.Tok == token.ASSIGN {
 		head = append(head,
